@@ -765,3 +765,22 @@ package logql
 //@   modifies nothing
 //@   ensures[empty-name-rejected] len(s) == 0 ==> ret0 != nil
 //@   loop 0 modifies nothing
+
+//@ scope parser.go
+
+// Parse = tokenize, parse one expression, and insist that nothing is left over.
+//@ func Parse
+//@   capture tk = call(lexer.Tokenize, 0)
+//@   capture pe = call(p.parseExpr, 0)
+//@   capture nx = call(p.next, 0)
+//@   ensures[tokenize-then-parse] ret1 == nil ==> tk_called && tk_a0 == s && tk_a1.AllowDots == opts.AllowDots && tk_r1 == nil && pe_called && pe_r1 == nil && same(ret0, pe_r0)
+//@   ensures[parser-starts-at-the-first-token] pe_called ==> before(pe_called, p.pos == 0 && same(p.tokens, tk_r0))
+//@   ensures[whole-input-consumed] ret1 == nil ==> nx_called && nx_r0.Type == lexer.EOF
+//@   ensures[errors-surface] (tk_called && tk_r1 != nil) || (pe_called && pe_r1 != nil) || (nx_called && nx_r0.Type != lexer.EOF) ==> ret1 != nil
+
+//@ func ParseSelector
+//@   capture tk = call(lexer.Tokenize, 0)
+//@   capture ps = call(p.parseSelector, 0)
+//@   capture nx = call(p.next, 0)
+//@   ensures[tokenize-then-parse] ret1 == nil ==> tk_called && tk_a0 == s && tk_r1 == nil && ps_called && ps_r1 == nil && same(sel, ps_r0)
+//@   ensures[whole-input-consumed] ret1 == nil ==> nx_called && nx_r0.Type == lexer.EOF
